@@ -78,13 +78,22 @@ func TestVerifC05Mux(t *testing.T) {
 				deniedSrv := vfDenied(srv.IPF, ip)
 				deniedRuleR := R.rule >= 0 && vfDenied(srv.Rules[R.rule].IPF, ip)
 				deniedPathR := R.rule >= 0 && vfDenied(srv.Rules[R.rule].Paths[R.path].IPF, ip)
-				deniedOtherRule := false
+				// A rule's ipFilter is "for all traffic under the rule" (doc/reference/controllers.md), i.e.
+				// for every request whose host the rule matches: a host-matching rule AHEAD of the routing
+				// entry applies to the request although another rule routes it. Rules behind the routing
+				// entry are never consulted (first match wins): either outcome is accepted for them, as for
+				// requests no entry routes.
+				deniedOtherRule, deniedEarlierRule := false, false
 				for ri, rule := range srv.Rules {
 					if vfHostMatches(rule, req.Host) && ri != R.rule && vfDenied(rule.IPF, ip) {
-						deniedOtherRule = true
+						if R.rule >= 0 && ri < R.rule {
+							deniedEarlierRule = true
+						} else {
+							deniedOtherRule = true
+						}
 					}
 				}
-				mustDeny := deniedSrv || deniedRuleR || deniedPathR
+				mustDeny := deniedSrv || deniedRuleR || deniedPathR || deniedEarlierRule
 				mustAllow := !mustDeny && !deniedOtherRule
 				mustDenyAll = mustDenyAll && mustDeny
 				mustAllowAll = mustAllowAll && mustAllow
